@@ -11,6 +11,8 @@ import (
 type propSpec struct {
 	ID        string
 	Scope     Scope // guard-inventory scope
+	FrameScope Scope // transcript/sponge operation inventory scope
+	MinFrame  int
 	MinFuncs  int
 	Check     func(r *Run)
 	NeedSSA   bool
@@ -68,6 +70,10 @@ func runEmit(prop string) int {
 	if prop == "C07" {
 		checkSamplerInventory(r)
 		fmt.Println("C07: wrote sampler inventory")
+	}
+	if len(spec.FrameScope.Include) > 0 {
+		r.EmitFrameRef(prop+"_frame.json", spec.FrameScope)
+		fmt.Println(prop + ": wrote frame reference")
 	}
 	if len(spec.Scope.Include) > 0 {
 		if err := r.EmitGuardRef(prop+"_guards.json", spec.Scope); err != nil {
